@@ -10,6 +10,7 @@ from engine.driver import Result, viol
 
 ID = "C04"
 LEVEL = "exploration"
+HANG_IS_VIOLATION = True     # every generated case terminates under the model: no reply (twice, then 3x confirmation) is a violation
 ENGINE = "E-hyp"
 TECHNIQUE = "property-based testing with fault injection: generated programs with erroring operations at generated positions, histories of runs on one VM, compared with a model of the error/handler protocol"
 RULE = ("cases = histories of 1-4 runs on one VM; each run is a program of marker statements, nested call/forEach blocks, except__ constructs "
